@@ -1592,11 +1592,11 @@ def run(ctx):
         return res
     worlds = _load_corpus() + corpus_worlds()
     if ctx.thorough:
-        worlds += _worlds(ctx, 3000, 300, 30, "main", big=True)
+        worlds += _worlds(ctx, 1500, 150, 16, "main", big=True)
     else:
         worlds += _worlds(ctx, 200, 30, 4, "main")
     res = _explore(ctx, worlds, "w")
-    res = _client(ctx, res, 1200 if ctx.thorough else 50, "main", big=ctx.thorough)
+    res = _client(ctx, res, 600 if ctx.thorough else 50, "main", big=ctx.thorough)
     _relpath_probe(ctx, res)
     return res
 
